@@ -1,19 +1,49 @@
-// Package c03: STUB — property C03 is not built yet.
+// Package c03: property C03 over the shared exchange-machine harness (internal/pxy).
 package c03
 
-import "verif/harness/internal/core"
+import (
+	"verif/harness/internal/core"
+	"verif/harness/internal/pxy"
+)
 
 type P struct{}
 
 func init() { core.Register(P{}) }
 
-func (P) ID() string   { return "C03" }
-func (P) Rule() string { return "stub" }
-func (P) Gen(r *core.Rand, tier string, emit func([]string)) {}
-func (P) NewExec() core.Exec                                   { return ex{} }
-func (P) Nontrivial(ops []string, impl []string) bool         { return false }
+func (P) ID() string                                  { return "C03" }
+func (P) NewExec() core.Exec                          { return pxy.New() }
+func (P) Nontrivial(ops []string, impl []string) bool { return pxy.Nontrivial(ops, impl) }
 
-type ex struct{}
+func (P) Rule() string {
+	return "case = one client connection with 1..6 requests against an origin that, per request, answers, closes before/inside the response head at offset k, sends non-HTTP bytes, or cuts a Content-Length/chunked body at offset k, each followed by further well-formed requests on the same connection; plus junk client byte strings followed by a liveness probe; distinct by op-list hash; non-trivial when a 502 was produced, a later request went unserved, or >= 2 requests were served"
+}
 
-func (ex) Do(op string) core.Result { return core.Result{Impl: "bad-op"} }
-func (ex) Close()                   {}
+func (P) Gen(r *core.Rand, tier string, emit func([]string)) {
+	n, nj := 150, 40
+	if tier == "thorough" {
+		n, nj = 3000, 1500
+	}
+	pr := pxy.Profile{Faults: true}
+	for i := 0; i < n; i++ {
+		emit(pxy.GenCase(r, pr))
+	}
+	seeds := []string{"GET / HTTP/1.1\r\n\r\n", "GET http://[::1 HTTP/1.1\r\nHost: x\r\n\r\n", "POST / HTTP/1.1\r\nContent-Length: -1\r\n\r\n", "CONNECT HTTP/1.1\r\n\r\n",
+		"GET / HTTP/1.1\r\nTransfer-Encoding: chunked\r\n\r\nZZ\r\n", "\x16\x03\x01\x02\x00\x01\x00\x01\xfc\x03\x03", "PRI * HTTP/2.0\r\n\r\nSM\r\n\r\n", "GET / HTTP/9.9\r\nHost: a\r\n\r\n",
+		"GET /%zz HTTP/1.1\r\nHost: a\r\n\r\n", "POST / HTTP/1.1\r\nHost: a\r\nContent-Length: 10\r\n\r\nabc", "GET / HTTP/1.1\r\nHost: a\r\nRange: bytes=5-1\r\n\r\n"}
+	for i := 0; i < nj; i++ {
+		var ops []string
+		for j := 0; j < 5; j++ {
+			var b []byte
+			if r.Bool() {
+				b = []byte(seeds[r.Intn(len(seeds))])
+				for k := 0; k < r.Intn(4) && len(b) > 0; k++ {
+					b[r.Intn(len(b))] = byte(r.U64())
+				}
+			} else {
+				b = r.Bytes(r.Range(1, 200))
+			}
+			ops = append(ops, "junk "+core.Hex(b))
+		}
+		emit(ops)
+	}
+}
